@@ -249,9 +249,9 @@ func drivers(quick bool) []conc.Driver {
 		ds = append(ds, conc.Driver{Name: name, Cfg: cfg, Mk: mk, Fallback: []int{0, 1, 2, 3}})
 	}
 	type pc struct{ w, c, b, n, e int }
-	pcs := []pc{{2, 2, 2, 0, -1}, {2, 2, 2, 1, -1}, {3, 1, 1, 0, -1}, {1, 0, 0, 2, -1}, {2, 1, 0, 3, 1}, {2, 0, 1, 2, 0}}
+	pcs := []pc{{2, 2, 2, 0, -1}, {2, 2, 2, 1, -1}, {1, 0, 0, 2, -1}, {2, 1, 0, 3, 1}, {2, 0, 1, 2, 0}}
 	if !quick {
-		pcs = append(pcs, pc{2, 2, 2, 2, -1}, pc{3, 1, 1, 1, -1}, pc{3, 3, 3, 3, -1}, pc{4, 0, 0, 0, -1}, pc{4, 0, 0, 2, -1}, pc{3, 0, 1, 4, 0})
+		pcs = append(pcs, pc{2, 2, 2, 2, -1}, pc{3, 1, 1, 0, -1}, pc{3, 1, 1, 1, -1}, pc{3, 3, 3, 3, -1}, pc{4, 0, 0, 0, -1}, pc{4, 0, 0, 2, -1}, pc{3, 0, 1, 4, 0})
 	}
 	for _, p := range pcs {
 		add(fmt.Sprintf("processor-w%d-c%d-b%d-n%d-e%d", p.w, p.c, p.b, p.n, p.e), processor(p.w, p.c, p.b, p.n, p.e))
